@@ -78,14 +78,14 @@ PROPS = {
     "C10": {
         "streams": ["nested", "dualhandle", "slabid"], "driver": {"nested": "world", "slabid": "slabid"}, "level": "proof",
         "trusted_base": LEAN_TB, "assumptions": NEST_ASSUME,
-        "rule": "nested histories (arrays and maps in arrays and maps, wrapped 0-2 levels, depth up to 7, children growing and shrinking across the inline limit, parents restructured between child operations, commits + reload, commit + reopen + continue with re-fetched handles, handles obtained by lookup and by mutable iteration, byte-granular walks across the inline limit in both directions, PopIterate through child / detached handles with deep disposal, SetType on nested containers, deep removal of everything at the end); plus the dual-handle scenarios; distinct = distinct programs",
-        "explanation": "Theorems: storable_inline_decision (inline exactly when a single slab fits the budget left after wrappers; size handed to the parent; value ID kept; storage effect), notify_updates_array_parent, handed_back_is_standalone, value_id_stable (all five operations), elem_sync_childStorable, mutIdx_ok_arrInsert, index_shift_order_independent. Tie: every nested operation replayed on the World model (observations, effects, nested dumps). Oracle: deep read-back through the outermost container, VerifyArray/VerifyMap, reload after commit.",
+        "rule": "nested histories (arrays and maps in arrays and maps, wrapped 0-2 levels, depth up to 7, children growing and shrinking across the inline limit, parents restructured between child operations, commits + reload, commit + reopen + continue with re-fetched handles, handles obtained by lookup and by mutable iteration, byte-granular walks across the inline limit in both directions, PopIterate through child / detached handles with deep disposal, SetType on nested containers, deep removal of everything at the end; every third program with a hash-input provider under which keys collide on all 4 digest levels: children inside inline / external collision groups and last-level lists, inlined maps owning a standalone collision-group slab; plain values above the inline limit inside children; new children / SetType / detach / re-attach inside detached subtrees; Set(i, existing detached container); a standalone child overwritten in its own slot by itself under other wrappers; ~5% rejected requests through nested handles at any depth); plus the dual-handle scenarios; distinct = distinct programs",
+        "explanation": "Theorems: storable_inline_decision (inline exactly when a single slab fits the budget left after wrappers; size handed to the parent; value ID kept; storage effect), notify_updates_array_parent, handed_back_is_standalone, value_id_stable (all five operations), elem_sync_childStorable, mutIdx_ok_arrInsert, index_shift_order_independent. Tie: every nested operation replayed on the World model (observations, effects, nested dumps incl. the collision-group slabs of inlined maps); after every step the parent callback of every handle and the mutableElementIndex of every array (hooks VerifArrayHasParentUpdater / VerifMapHasParentUpdater / VerifArrayMutableElementIndex) compared with the model's hinfo / mutIdx (HST lines). Oracle: deep read-back through the outermost container, VerifyArray/VerifyMap, reload after commit; mutableElementIndex = positions of the child containers; every container in a parent has a callback; Inlined() == Inlinable(per-element limit minus wrappers) for every nested container after every mutation; a rejected request through a nested handle leaves every slab of the storage and the write-set keys unchanged (also filed under C18).",
     },
     "C11": {
         "streams": ["nested"], "driver": {"nested": "world"}, "level": "proof",
         "trusted_base": LEAN_TB, "assumptions": NEST_ASSUME,
-        "rule": "nested histories with detach (remove / overwrite by a plain value / overwrite by ANOTHER container in the same slot), mutation through the detached handle, re-attachment elsewhere; distinct = distinct programs",
-        "explanation": "Theorems: detached_array_child / replaced_slot / detached_map_child _leaves_parent_unchanged (the callback answers not-found before any write: containers, index tables and effect log untouched), remove_forgets_index; handed_back_is_standalone (C10). Oracle: dump of the former parent unchanged, returned storable is a reference with the unchanged value ID.",
+        "rule": "nested histories with detach (remove / overwrite by a plain value / overwrite by ANOTHER container, new or an existing detached one, in the same slot), mutation through the detached handle and through handles of containers nested in it, new children / SetType / detach / re-attach inside detached subtrees, re-attachment elsewhere (also into another detached subtree), rejected requests through detached handles; distinct = distinct programs",
+        "explanation": "Theorems: detached_array_child / replaced_slot / detached_map_child _leaves_parent_unchanged (the callback answers not-found before any write: containers, index tables and effect log untouched), remove_forgets_index; handed_back_is_standalone (C10). Tie: HST lines (the model's hinfo erase on not-found vs the real parentUpdater; mutIdx vs mutableElementIndex). Oracle: dump of the former parent unchanged, returned storable is a reference with the unchanged value ID; every operation leaves the slabs of every OTHER family of containers (outermost container, each detached container, with what is nested in them) unchanged, in both directions; a detached (or popped inlined) container mutated while inlinable under its former budget has no parent callback afterwards (cleared after not-found); no mutableElementIndex entry for a container the array no longer holds; every detached container reads back what the history put into it and passes VerifyArray/VerifyMap as a root.",
     },
     "C01": {
         "streams": ["array", "persist", "settings", "nested"], "driver": {"array": "array", "persist": "array", "settings": "settings", "nested": "world"}, "level": "proof",
@@ -159,11 +159,11 @@ PROPS = {
     "explanation": "Theorems: batch_array_content / _inv / _ids_fresh, batch_map_* (content, seed/count/order, rejects unsorted / duplicates / seed 0, loop accepts every valid stream, batch_map_inv), can_copy_iff, copy_succeeds_when_offered (iff), copy_content_eq, copy_size_rebased, copy_inv, result_ids_fresh, bytes_roundtrip. Oracles on the implementation: content read back by iteration, VerifyArray/VerifyMap + Verify*Serialization, CheckStorageHealth with the exact root count, disjoint slab-ID sets, mutate-one-check-other (dump and content), copy offered iff single slab of plain values and then succeeds.",
 },
     "C18": {
-        "streams": ["array", "mapcollide", "callbackfail"], "driver": {"array": "array", "mapcollide": "map"}, "level": "proof",
+        "streams": ["array", "mapcollide", "callbackfail", "nested"], "driver": {"array": "array", "mapcollide": "map", "nested": "world"}, "level": "proof",
         "trusted_base": LEAN_TB, "assumptions": ARRAY_ASSUME + [
             "the model's operations return Except: a rejected request carries no new state; what ties this to the code is the per-operation comparison of the net storage effect ('EFF -' after every rejected request) and of the periodic full dumps",
-            "nested handles (ancestors untouched by a rejected child request) are covered by C10's stream, not by these theorems"],
-        "rule": "array stream: out-of-range get/set/insert/remove at every state (profile 3); map collision stream: absent-key removals and collision-limit refusals (limits 0..3) at every state; callback stream: comparator failing at call 1..4, hash-input provider failing, ledger reads failing; distinct = distinct (request kind, error kind) pairs + programs",
+            "nested handles (ancestors untouched by a rejected child request) are covered by the nested stream (about 5% of its requests are rejected ones through handles at any depth, attached or detached: error kind, empty storage effect, every slab of the storage and the write-set keys unchanged, handle bookkeeping unchanged; same error and 'EFF -' from the World model), not by these theorems"],
+        "rule": "array stream: out-of-range get/set/insert/remove at every state (profile 3); map collision stream: absent-key removals and collision-limit refusals (limits 0..3) at every state; callback stream: comparator failing at call 1..4, hash-input provider failing, ledger reads failing; nested stream: out-of-range Get/Set/Insert/Remove and absent-key Get/Remove through handles of nested containers (any depth, attached or inside detached subtrees, also inside collision groups); distinct = distinct (request kind, error kind) pairs + programs",
         "explanation": "Theorems: arg_error_category / model_error_categories (by decide over the table regenerated from errors.go), callback_failure_is_external (model of wrapErrorfAsExternalErrorIfNeeded), reject_is_noop, history_with_rejections_same_state. Oracle: errors.As category, no SlabStorage call during a rejected request, dump and Deltas() unchanged.",
     },
     "C20": {
